@@ -97,7 +97,7 @@ theorem applyFn_mono : ∀ (fuel : Nat) (f : Val) (args : List Val),
       · split
         · rename_i h1 h2
           simp only [h1, h2, if_false, if_true] at h
-          cases hc : convertAll b.params args with
+          cases hc : convertAll (b.paramsAt args.length) args with
           | error e => rfl
           | ok cs =>
             simp only [hc] at h ⊢
